@@ -3,7 +3,7 @@ import json
 import os
 import time
 
-from . import core, suites, spec
+from . import core, suites, spec, session, apigen
 from .core import log
 
 TRUSTED_COMMON = [
@@ -33,6 +33,30 @@ prop('C02', level='proof', modules=['Polyseed.Props.C02'], suites=['gf'],
      note=PROOF_NOTE + 'Modelled, not verified: gf.h (hand transcription); phrases are related to coefficient vectors by the word-lookup theorems of C07/C08.',
      technique='Lean 4 proof (linear algebra over GF(2048), decide +kernel over the field) + exhaustive correspondence on mul2',
      assumptions=['coefficients are < 2048 (word indices, coin < 2048)'])
+prop('C04', level='proof', modules=['Polyseed.Props.C04'], suites=[],
+     api=dict(cone=['keygen', 'create', 'load', 'decode', 'decodex', 'crypt', 'dump', 'store']),
+     text='Theorems keygen_events (exactly one KDF call; password = 32-byte secret buffer; salt bytes spelled out; 10000 iterations; key length passed through), keygen_password (zero padding for canonical seeds), kdfArgs_inj (different secret/coin/birthday/features give different inputs), kdfArgs_path_independent. S-api records all seven KDF arguments of every call on the real code, compares the key buffer with what the stub wrote and the seed before/after, and compares KDF inputs of seeds reached by different paths (create, decode in any language, load, crypt twice).',
+     note=PROOF_NOTE + 'Modelled, not verified: polyseed_keygen. That the library does not READ the key afterwards is invisible to a pattern comparison; only writes are observed.',
+     technique='Lean 4 proof (event theorem + injectivity of the salt layout) + API-history correspondence with recorded KDF arguments',
+     assumptions=['coin < 2048; canonical seeds (proved invariant, C13)'])
+prop('C05', level='proof', modules=['Polyseed.Props.C05'], suites=['gf'],
+     api=dict(cone=['encode', 'decode', 'decodex', 'create', 'dump'], weights=dict(errors=6, roundtrip=2)),
+     text='Theorems wrong_coin (a valid polynomial encoded for coin a fails the checksum for every b != a; corollary of C02.single_error), same_coin, coin_changes_word2_only, for all polynomials and all 2048x2047 ordered pairs. S-api decodes phrases for wrong coins on the real code (biased to coins 0/2047 and XOR-neighbours).',
+     note=PROOF_NOTE + 'Stated on coefficient vectors; the lifting to phrases uses the word-lookup theorems (C07/C08).',
+     technique='Lean 4 proof (corollary of the GF(2048) single-error theorem) + API-history correspondence',
+     assumptions=['coins are < 2048 (the API asserts it; larger values are outside the model)'])
+prop('C12', level='proof', modules=['Polyseed.Props.C12'], suites=[],
+     api=dict(cone=['crypt', 'dump', 'store', 'load', 'encode', 'decode', 'decodex'], weights=dict(crypt=8, storage=1, roundtrip=1)),
+     text='Theorems crypt_involutive (twice with the same mask restores a canonical seed bit for bit, every mask), crypt_canon (result canonical for every mask: 150 bits, zero padding, check value recomputed), crypt_toggles, cryptSecret_getD (mask = first 19 KDF bytes, top two bits of the 19th dropped), crypt_events (one KDF call with NFKD(password), salt bytes spelled out, 10000 iterations, 32 bytes; three wipes), crypt_norm_equiv. S-api applies passwords (ASCII, composed/decomposed, empty, 358-400 bytes, invalid UTF-8) with pseudo-random masks and checks every clause on the real code.',
+     note=PROOF_NOTE + 'Modelled, not verified: polyseed_crypt, utf8_nfkd_lazy. Assumes the injected NFKD returns a NUL-terminated string shorter than POLYSEED_STR_SIZE and its length.',
+     technique='Lean 4 proof (byte-wise XOR algebra, all masks) + API-history correspondence with recorded KDF calls',
+     assumptions=['the injected KDF is a deterministic function of its inputs'])
+prop('C18', level='proof', modules=['Polyseed.Props.C18'], suites=[],
+     api=dict(cone=['inject', 'create', 'free', 'encode', 'crypt', 'keygen', 'decode', 'decodex', 'load'], weights=dict(inject=6, roundtrip=2, crypt=1, faults=1)),
+     text='Theorems inject_replaces / inject_last_wins / inject_optional (libc time, malloc, free exactly when the entry is NULL) / inject_frame, create_events (alloc, clock, 19 random bytes, wipe - in this order, nothing else), create_secret (secret = the 19 bytes with the top two bits of the last dropped; injective on the 150 bits), create_junk_independent. S-api injects two distinguishable stub sets with each optional entry present/NULL (libc interposed with --wrap), overwrites and unmaps the caller struct after injection, and checks which function served every dependency call.',
+     note=PROOF_NOTE + 'Modelled, not verified: dependency.c, polyseed_create. "No other source of randomness or time" is additionally checked by the undefined-symbol inventory of the objects (S-syms).',
+     technique='Lean 4 proof (event theorems over all random/clock outputs) + API-history correspondence with function identities',
+     assumptions=[])
 prop('C06', level='proof', modules=['Polyseed.Props.C06'], suites=['store'],
      text='Theorems store_bytes, load_store, load_ok_iff (for EVERY list of 32 bytes: accepted iff it is byte-for-byte the image of a canonical supported seed), store_of_loaded, load_status (precedence memory > format > checksum > unsupported), dataLoad_format_iff. polyseed_data_store/load are compared with the model on valid images, field-wise mutations (exhaustive in the thorough tier) and random buffers.',
      note=PROOF_NOTE + 'Modelled, not verified: storage.c and polyseed_load (hand transcription).',
@@ -107,6 +131,52 @@ def run_suite(ctx, pid, S, viol, stats):
                     viol.append(Violation('oracle', key, msg, script=script, suite=S.name, variant=variant, found_input=True))
 
 
+def run_api(ctx, pid, viol, stats, weights=None, sessions=None, nops=None, variants=('asan',), cone=None, tag='api'):
+    """S-api: feedback-driven histories on the real code (online property oracles) + model diff.
+    `cone`: op names whose disagreement with the model concerns this property (None = all)."""
+    weights = weights or apigen.DEFAULT_WEIGHTS
+    sessions = sessions or (40 if ctx.thorough else 6)
+    nops = nops or (600 if ctx.thorough else 350)
+    st = stats.setdefault(tag, dict(evaluations=0, distinct=set(), samples=[], variants=[], wall=0.0,
+                                    note='feedback-driven API histories (%d sessions x ~%d ops): outputs of earlier calls are fed back exact and mutated; online oracles judge the real code by the property statement; the transcript is replayed through the Lean model' % (sessions, nops),
+                                    exhaustive=False, mismatches=0, hist={}))
+    t0 = time.time()
+    for variant in variants:
+        st['variants'].append(variant)
+        for si in range(sessions):
+            sess = session.Session(ctx.tree, variant)
+            g = apigen.ApiGen(ctx, sess, ctx.rnd('%s-%s-%d' % (tag, variant, si)))
+            if sess.crashed:
+                viol.append(Violation('crash', 'harness-build', sess.crashed, suite=tag, variant=variant))
+                break
+            g.run(nops, weights)
+            st['evaluations'] += len(sess.ops)
+            for op in sess.ops:
+                if op.head != 'skip':
+                    st['distinct'].add(op.head)
+            for k, v in g.hist.items():
+                st['hist'][k] = st['hist'].get(k, 0) + v
+            if not st['samples'] and sess.ops:
+                for op in ctx.rnd('sample-api').sample(sess.ops, min(4, len(sess.ops))):
+                    st['samples'].append(op.block()[:5])
+            if sess.crashed:
+                viol.append(Violation('crash', 'crash:' + (sess.script[-1].split()[0] if sess.script else '?'),
+                                      'the real code crashed / was stopped by a sanitizer in an API history (%s): %s' % (variant, sess.crashed[:1500]),
+                                      script=sess.script[-700:], suite=tag, variant=variant, found_input=True))
+            for (p, key, msg, script) in g.viol:
+                if p == pid:
+                    viol.append(Violation('oracle', key, msg, script=script[-700:], suite=tag, variant=variant, found_input=True))
+            for (i, cb, mb) in session.diff_with_model(sess)[:5]:
+                opname = cb[0].split()[1] if len(cb[0].split()) > 1 else '?'
+                if cone is not None and opname not in cone:
+                    continue
+                st['mismatches'] += 1
+                viol.append(Violation('correspondence', 'corr:%s:%s' % (tag, opname),
+                                      'API history (%s): the real code and the model disagree at op %d (%s)' % (variant, i, cb[0][:100]),
+                                      script=sess.script[-700:], expected=mb, observed=cb, suite=tag, variant=variant))
+    st['wall'] += time.time() - t0
+
+
 def context_script(script, res, i):
     """script lines needed to reproduce op i: for stateless unit ops just the line, else the prefix"""
     head = res.c_ops[i].head
@@ -170,6 +240,8 @@ def check(ctx, pid):
             for sname in P['suites']:
                 S = getattr(suites, 'suite_' + sname)(ctx)
                 run_suite(ctx, pid, S, viol, stats)
+        if P.get('api') is not None and os.path.exists(core.driver_path()) and ctx.langs is not None:
+            run_api(ctx, pid, viol, stats, **P['api'])
         if P.get('extra'):
             P['extra'](ctx, pid, viol, stats)
     return report(ctx, pid, P, viol, stats, proof, t0)
